@@ -682,6 +682,13 @@ def run(ctx):
     c08_r8(ctx, r3d)
     # R9: `2 * M + 1` and `I + 1` in the AIGER parsers' constructors cannot overflow because Header::parse bounds M by
     # (MAX_CODE - 1) / 2 and I, L, A by what is left of M: the premise of four table entries of R2, decided by C06-R4
+    # R10: `NonZeroU64::new(width).unwrap()` (BTOR2 positive_int) and every bounded computation downstream rest on the
+    # digit scanners never handing out a wrapped value: a number that wraps to exactly 0 passes the "first digit is not
+    # 0" premise and panics in the unwrap.  C13-R1/R1b decide it (every step through overflowing_*, None iff a step overflowed)
+    from . import c13
+    r10 = ctx.rule("C05-R10", "the digit scanners hand out None, never a wrapped value, when the number does not fit (premise of NonZero::new(..).unwrap() and of the arithmetic on parsed numbers; shared with C13-R1/R1b)", floor=12)
+    c13.run_r1(ctx, r10)
+    c13.run_r1b(ctx, r10)
     from .c06 import run_r4 as c06_r4
     r9 = ctx.rule("C05-R9", "AIGER header bounds: M <= (MAX_CODE - 1) / 2 and the remainder chain I <= M, L <= M - I, A <= M - I - L, so that max_lit = 2M + 1 and the running code cannot overflow (shared with C06-R4)", floor=20)
     c06_r4(ctx, r9)
